@@ -134,7 +134,7 @@ def cscore(x):
 
 def _lm_term(case, tab):
     t = cl([cl([cscore(x) for x in row]) for row in tab])
-    return f"(hash_calc {cz(case['a'])} {cz(case['b'])} {cz(case['c'])} {cz(case['M'])} {t})"
+    return f"(hash_calc {cz(case['a'])} {cz(case['b'])} {cz(case['c'])} {cz(case['M'])} {cn(case['V'])} {t})"
 
 
 def _oslot(o, den):
